@@ -94,6 +94,13 @@ F22e == MkT(O2, S2, <<<<1, 2>>, <<0, 4>>>>, MdRows(<< <<L1("taxonomy", <<"p", "q
 F24frac == [MkT(O2, <<"s1", "s2", "s3", "s4">>, <<<<1, 0, 0, 2>>, <<0, 3, 0, 0>>>>, OMDtax, NoMd, "Ortholog table", "")
             EXCEPT !.mat = <<<<<<1, 2>>, Zero, Zero, <<-3, 4>>>>, <<Zero, <<5, 8>>, Zero, Zero>>>>]
 T23idext == Mk(<<"o1", "o2~0">>, S3, <<<<3, 1, 0>>, <<0, 5, 6>>>>, OMD2, NoMd, "OTU table")   \* an ID that extends another
+\* axes of length 4 (C06: every permutation of an axis up to length 4)
+O4 == <<"o1", "o2", "o3", "o4">>     S4 == <<"s1", "s2", "s3", "s4">>
+OMD4 == MdRows(<< <<S1("k1", "x")>>, <<S1("k1", "y")>>, <<S1("k1", "x")>>, <<S1("k1", "p")>> >>)
+SMD4 == MdRows(<< <<S1("k2", "p")>>, <<S1("k2", "q")>>, <<S1("k2", "x")>>, <<S1("k2", "y")>> >>)
+T44  == Mk(O4, S4, <<<<1, 0, 2, 0>>, <<0, 3, 0, 4>>, <<5, 6, 0, 0>>, <<0, 0, 7, 8>>>>, OMD4, SMD4, "OTU table")
+T44p == Mk(<<"o3", "o1", "o4", "o2">>, <<"s2", "s4", "s1", "s3">>,
+           <<<<1, 2, 3, 4>>, <<5, 6, 7, 8>>, <<9, 1, 2, 3>>, <<4, 5, 6, 7>>>>, NoMd, NoMd, "")
 S10 == <<"s1", "s2", "s3", "s4", "s5", "s6", "s7", "s8", "s9", "t1">>
 W2x10 == MkT(O2, S10, <<<<1, 0, 2, 0, 3, 0, 4, 0, 5, 6>>, <<0, 7, 0, 8, 0, 9, 0, 1, 2, 3>>>>, NoMd, NoMd, "OTU table", "")
 =============================================================================
